@@ -1,6 +1,7 @@
 import BbRe.Properties.C14Generated
 import BbRe.Lemmas.LockSkelConc
 import BbRe.Lemmas.LockSkelConcInst
+import BbRe.Lemmas.LockSkelConcPile
 /-!
 # C14 (b), concurrent part — from traces of single functions to the run-time wait-for graph
 
@@ -22,19 +23,20 @@ Proved for every reachable state: `held_is_prefix_replay` (what a thread owns = 
 replay of the completed prefix of its trace holds), `finished_thread_holds_nothing`,
 `blocked_pairs_are_edges` (= `hsrc`), `no_wait_cycle`, `system_progress`.
 
-**What remains assumed** (hypotheses of `IsCall`, and modelling):
+**What remains assumed** (hypothesis of `IsCall`, and modelling):
 1. `ρ` is a function, injective, class preserving: within one call each lock name denotes ONE
    run-time lock, different names denote different locks, and a run-time lock belongs to the
    class of every name denoting it (`lc (ρ l) = clsOf edgeClass l`, one `lc` for all threads).
    Not covered: two names for one lock in one call (`iOld == iNew` in a rename inside one
    directory — at pile level that is the recursion count, modelled by `pFast`, but only for
    equal names here), and a name re-bound to different objects in successive loop iterations.
-2. `PileOneClass`: all locks a call takes through one `LockPile` have one class. This is needed
-   because a backed-off `LockPile.Lock` may block on ANY lock of the pile (not only the newly
-   added one) while holding the locks outside the pile, but `edgesS` records the pairs
-   (outside class, class of the lock being added) only. It is checked syntactically on the
-   current source by `pile_locks_one_class_syntactic` (all `pileLock` statements: directory
-   locks); the step from the statements to the events of `Exec` traces is not proved.
+2. (No longer an assumption.) All locks a call takes through one `LockPile` have one class.
+   This is needed because a backed-off `LockPile.Lock` may block on ANY lock of the pile (not
+   only the newly added one) while holding the locks outside the pile, but `edgesS` records the
+   pairs (outside class, class of the lock being added) only. It is proved for every `Exec`
+   trace (`call_piles_one_class`, by induction over the path semantics in
+   `Lemmas/LockSkelConcPile.lean`) from the static obligation `pile_statements_static`,
+   re-decided on the current source on every run.
 3. Instance-level vs class-level order. Two locks of the SAME class are never nested outside a
    pile (`classEdges` has no self-loop: `edges_irreflexive`), so the class order suffices for
    everything except same-class locks taken through a pile (parent/child directories, the two
@@ -55,14 +57,15 @@ open BbRe.Lemmas.LockPile (Chain Edge H)
 /-- Permitted (held class, awaited class) pairs: the edges extracted from the source. -/
 def okEdge (a b : Nat) : Prop := (a, b) ∈ classEdges
 
-/-- All locks the trace takes through one pile have one class (assumption 2). -/
+/-- All locks the trace takes through one pile have one class (proved for every `Exec` trace
+of the current program: `call_piles_one_class`). -/
 def PileOneClass (tr : List Ev) : Prop :=
   ∀ p l l', Ev.pacq p l ∈ tr → Ev.pacq p l' ∈ tr → clsOf edgeClass l = clsOf edgeClass l'
 
 /-- `itr` is what one call of an exported function of the translated files does to run-time
 locks: a returning run `tr` of the function's skeleton, its lock names instantiated by `ρ`. -/
 def IsCall (lc : Nat → Nat) (own : Nat → Bool) (itr : List Ev) : Prop :=
-  ∃ f ∈ entries, ∃ tr, Exec prog f tr ∧ PileOneClass tr ∧
+  ∃ f ∈ entries, ∃ tr, Exec prog f tr ∧
     ∃ ρ : Nat → Nat, Function.Injective ρ ∧ (∀ l, lc (ρ l) = clsOf edgeClass l) ∧
       (∀ l, own (ρ l) = isOwn l) ∧ itr = tr.map (evMap ρ)
 
@@ -91,23 +94,37 @@ theorem edges_ranked (a b : Nat) (h : okEdge a b) : rankOf classRanks a < rankOf
   have := List.all_eq_true.mp hr _ h
   simpa using this
 
-/-- All `pileLock` statements of the current source lock names of one class (evidence for
-assumption 2; syntactic). -/
+/-- All `pileLock` statements of the current source lock names of one class (syntactic). -/
 theorem pile_locks_one_class_syntactic : pileClassesOk edgeClass prog = true := by decide +kernel
+
+/-- The class of the locks taken through a `LockPile` (class of the first `pileLock` statement
+of the translated program; the directory lock). -/
+def pileClass : Nat :=
+  (((prog.flatMap (fun fb => stmtPileLocks fb.2)).head?).map (fun a => clsOf edgeClass a.2)).getD 0
+
+/-- Static obligation on the current source: every `pileLock` statement locks a name of class
+`pileClass`, every call renaming keeps the class of every lock name (`renOk`), and no
+function body contains an untranslatable (`unsupported`) statement. -/
+theorem pile_statements_static : pileStaticOk edgeClass pileClass prog = true := by decide +kernel
+
+/-- **From statements to events**: in every returning run of every translated function (callee
+bodies to any depth) all locks taken through a `LockPile` have one class. -/
+theorem call_piles_one_class (f : Nat) (tr : List Ev) (he : Exec prog f tr) : PileOneClass tr :=
+  pile_events_one_class pile_statements_static f tr he
 
 /-- **Every call trace meets the static hypotheses of the interleaving semantics**: ranked
 pairs (`runs_respect_lock_order`), releases only what is held and ends holding nothing
 (`no_entry_point_leaves_a_lock_behind`). -/
 theorem call_traces_good {lc : Nat → Nat} {own : Nat → Bool} {itr : List Ev}
     (h : ThreadOK lc own itr) : Good lc own okEdge itr := by
-  rcases h with rfl | ⟨f, hf, tr, hex, hpile, ρ, hρ, hc, ho, rfl⟩
+  rcases h with rfl | ⟨f, hf, tr, hex, ρ, hρ, hc, ho, rfl⟩
   · exact good_nil edges_irreflexive
   · have hb := entry_points_balanced
     unfold entriesBalanced at hb
     have hs : sigma.get f = some ([], []) := by
       simpa using List.all_eq_true.mp hb f hf
     exact good_of_run hρ hc ho (no_entry_point_leaves_a_lock_behind f hf tr hex)
-      (fun e he => (runs_respect_lock_order f tr hex [] [] hs e he).1) edges_irreflexive hpile
+      (fun e he => (runs_respect_lock_order f tr hex [] [] hs e he).1) edges_irreflexive (call_piles_one_class f tr hex)
 
 section
 variable {lc : Nat → Nat} {own : Nat → Bool} {s0 s : Sys}
